@@ -906,6 +906,8 @@ func main() {
 	chSD := vh.NewChannel("searcher.searchdocs", "real Searcher.SearchDocs over scripted fractions vs SV.Merge.searchDocs; non-trivial = >1 fraction and a non-empty match set")
 	chPx := vh.NewChannel("proxy.merge", "real search.Ingestor.Search over scripted stores (first healthy replica) vs SV.Merge.proxyMerge; non-trivial = >1 shard")
 	chReal := vh.NewChannel("searchdocs.real", "real Searcher.SearchDocs over real fractions of a FracManager vs SV.Merge.searchDocs fed with the fractions' Info and match sets")
+	chAPIGrpc = vh.NewChannel("api.grpc", "real storeapi.GrpcV1.Search(req) on a real store (requests at the integer edges: From/To 0, -1, MinInt64, MaxInt64, MIDs above 2^63, Size 0/-1/MaxInt64, Offset > total, Interval 0/1/-1, undeclared Order, hot-store refusal, MaxFractionHits) vs SV.Api.grpcSearch; non-trivial = an answer with IDs")
+	chAPIProxy = vh.NewChannel("api.proxy", "real search.Ingestor.Search(sr) over real stores (2 replicas per shard, replica 0 of odd shards down, with and without ShuffleReplicas) vs SV.Api.proxySearch over SV.Api.grpcSearch; also which replicas were asked")
 	orcSD := vh.NewOracle("searchdocs.partition", "SearchDocs over k scripted fractions equals the one-fraction answer (ids, total, histogram) for every FractionsPerIteration; non-trivial = more matches than the limit over >1 fraction")
 	orcPx := vh.NewOracle("proxy.paging", "Ingestor.Search page (offset,size) over s shards equals that window of the single ordered list")
 	orcSys := vh.NewOracle("system.fractions", "real FracManager: corpus in one fraction vs the same corpus in k fractions (active+sealed, overlapping ranges), all FractionsPerIteration, both orders; non-trivial = k>1 and more matches than the limit")
@@ -921,7 +923,7 @@ func main() {
 			"searchdocs": chSD, "proxymerge": chPx}
 		for _, l := range lines {
 			kind := strings.Fields(l + " .")[0]
-			if kind == "sys" || kind == "cluster" || kind == "sysbig" || kind == "sysdist" {
+			if kind == "sys" || kind == "cluster" || kind == "sysbig" || kind == "sysdist" || kind == "grpc" || kind == "proxyreq" {
 				sysLines = append(sysLines, l)
 			} else if ch := byKind[kind]; ch != nil {
 				ch.Add(l, runOp(l), true, "replay")
@@ -950,12 +952,13 @@ func main() {
 		stage("sys", func() {
 			lines := append(genSys(g, o), genCluster(g, o)...)
 			lines = append(lines, genDist(g, o)...)
+			lines = append(lines, genAPI(g, o)...)
 			// posting lists longer than one LID block (65536 entries) of a sealed fraction
 			lines = append(lines, fmt.Sprintf("sysbig n=%d k=%d", o.Pick(70000, 140000), o.Pick(3, 5)))
 			runSys(lines, chReal, orcSys, rep, o)
 		})
 	}
-	for _, ch := range []*vh.Channel{chMerge, chEns, chSort, chFilt, chPag, chSD, chPx, chReal} {
+	for _, ch := range []*vh.Channel{chMerge, chEns, chSort, chFilt, chPag, chSD, chPx, chReal, chAPIGrpc, chAPIProxy} {
 		t0 := time.Now()
 		rep.AddChannel(ch, o.Driver)
 		rep.Note("driver %s: %d cases %.1fs", ch.Name, ch.Cases, time.Since(t0).Seconds())
